@@ -494,6 +494,10 @@ func superviseShard(id string, cfg propCfg, v variant, bin, tier string, seed ui
 			res.viols = append(res.viols, viol{Key: "hang:" + key, What: fmt.Sprintf("no return after %.0fs CPU on one case (idx %d, %s)", cfg.CPUHang, idx, key),
 				Idx: idx, Shard: shard, Variant: v.Name, Witness: map[string]any{"goroutines": tail}})
 			res.nviol["hang:"+key]++
+		case verdict == "blocked":
+			res.viols = append(res.viols, viol{Key: "blocked:" + key, What: fmt.Sprintf("no progress and no processor use for 120 s on one case (idx %d, %s): every goroutine of the worker is blocked", idx, key),
+				Idx: idx, Shard: shard, Variant: v.Name, Witness: map[string]any{"goroutines": tail}})
+			res.nviol["blocked:"+key]++
 		case verdict == "wall-timeout":
 			res.inconclusive = append(res.inconclusive, fmt.Sprintf("variant=%s idx=%d key=%s: wall-clock watchdog fired without a logical verdict", v.Name, idx, key))
 		case idx < 0 && fatalFrame(headFile(errFile, 20000)) != "":
@@ -550,6 +554,7 @@ func watchAndWait(cmd *exec.Cmd, journal string, cpuHang float64) (string, error
 	tick := time.NewTicker(250 * time.Millisecond)
 	defer tick.Stop()
 	killed := false
+	idleSince, cpuAtIdle := time.Now(), 0.0
 	for {
 		select {
 		case err := <-waitDone:
@@ -567,10 +572,19 @@ func watchAndWait(cmd *exec.Cmd, journal string, cpuHang float64) (string, error
 		cur := strings.TrimSpace(string(b))
 		if cur != last {
 			last, lastChange, cpuAtChange = cur, time.Now(), cpu
+			idleSince, cpuAtIdle = time.Now(), cpu
 			continue
+		}
+		if cpu-cpuAtIdle > 0.3 || hasChildren(cmd.Process.Pid) {
+			idleSince, cpuAtIdle = time.Now(), cpu // it is computing, or waiting for a child process it started
 		}
 		if cpuHang > 0 && cpu-cpuAtChange > cpuHang {
 			verdict = "cpu-hang"
+		} else if strings.HasPrefix(cur, "B ") && time.Since(idleSince).Seconds() > 120 {
+			// one case open, and for two minutes the process has neither used the processor nor had a child to wait
+			// for: all its goroutines are blocked for good (the Go runtime only reports that itself when no
+			// goroutine at all could still run, which background goroutines of the race detector prevent)
+			verdict = "blocked"
 		} else if time.Since(lastChange).Seconds() > wallLimit {
 			verdict = "wall-timeout"
 		}
@@ -583,6 +597,17 @@ func watchAndWait(cmd *exec.Cmd, journal string, cpuHang float64) (string, error
 			}()
 		}
 	}
+}
+
+// hasChildren: does the process have live child processes (workers of C13 and C19 start some and wait for them)?
+func hasChildren(pid int) bool {
+	tasks, _ := filepath.Glob(fmt.Sprintf("/proc/%d/task/*/children", pid))
+	for _, t := range tasks {
+		if b, err := os.ReadFile(t); err == nil && strings.TrimSpace(string(b)) != "" {
+			return true
+		}
+	}
+	return false
 }
 
 func procStat(pid int) []string {
